@@ -139,6 +139,10 @@ def check(prog: Program, res: Result) -> None:
     res.borrow(c07.check_valid, "C02-refine", prog)
     res.borrow(c06.check_refine, "C02-refine", prog)
     res.borrow(c12.check_align, "C02-frame", prog)
+    # premises of the units analysis: the library contracts it uses for apply_sizematcher / crop_bboxes hold (C04)
+    from . import c04
+    res.borrow(c04.check_contract_premises, "C02-leaf", prog)
+    res.borrow(c04.check_size, "C02-leaf", prog)
     res.floor("C02-out", 8)
     res.floor("C02-own", 7)
     res.floor("C02-pad", 2)
